@@ -1098,7 +1098,7 @@ pub fn explore_net(
                         }
                         let t = en[c].clone();
                         own_enabled.push(en.clone());
-                        w.apply(&t)?;
+                        w.apply(&t).map_err(|e| format!("{} ; while replaying {:?} after {:?}", e, t, path_str(&path)))?;
                         path.push(t);
                         own_keys.push(crate::util::hash128(&w.key()));
                     }
@@ -1170,7 +1170,7 @@ pub fn explore_net(
                         }
                         let t = en[0].clone();
                         own_enabled.push(en.clone());
-                        w.apply(&t)?;
+                        w.apply(&t).map_err(|e| format!("{} ; while taking {:?} after {:?}", e, t, path_str(&path)))?;
                         stats.lock().unwrap().transitions += 1;
                         path.push(t);
                         choices.push(0);
